@@ -32,6 +32,7 @@ type vfAction struct {
 	Req       *vfReq      `json:"req,omitempty"`
 	Browser   int         `json:"browser"`
 	Slot      int         `json:"slot"`
+	Realm     string      `json:"realm,omitempty"` // newinst: the tenant of the provider the new instance is configured for
 	StateMode string      `json:"state_mode,omitempty"` // own | stale | foreign | absent | garbage
 	CodeMode  string      `json:"code_mode,omitempty"`  // own | absent | garbage | reused
 	ErrParam  string      `json:"err_param,omitempty"`
@@ -260,7 +261,7 @@ func (w *vfWorld) run(actions []vfAction) {
 		case "mint":
 			w.mint(a)
 		case "newinst":
-			w.addInstance(a.Slot)
+			w.addInstanceRealm(a.Slot, a.Realm)
 		case "sleep":
 			time.Sleep(time.Duration(a.SleepMs) * time.Millisecond)
 		}
